@@ -50,6 +50,9 @@ class Unsupported(Exception):
     pass
 
 
+MAX_STATE_BITS = 4096
+
+
 def bit(bvterm, i):
     return z3.Extract(i, i, bvterm) == z3.BitVecVal(1, 1)
 
@@ -280,6 +283,10 @@ def check_structure(nl, rtl):
 def netlist_vs_rtl(nl, rtl, timeout_ms=60000, bmc_k=4):
     """returns dict(verdict, ...). verdict in: equal_inductive, equal_bounded, differs, inconclusive"""
     t0 = time.time()
+    if len({f["clock"] for f in rtl["ffs"]}) > 1:
+        raise Unsupported("more than one clock")
+    if sum(s["width"] for s in rtl["states"]) > MAX_STATE_BITS:
+        raise Unsupported(f"more than {MAX_STATE_BITS} state bits")
     R = parse_rtl(rtl)
     queries = 0
     notes = check_structure(nl, rtl)
@@ -351,6 +358,8 @@ def frame_inputs(rtl, k):
 def bounded(nl, rtl, k, timeout_ms):
     """both sides from the all-zero state; cycle 0 has reset asserted (if any), then k free cycles.
     Outputs are compared in every cycle (after the reset cycle)."""
+    if len({f["clock"] for f in rtl["ffs"]}) > 1:
+        raise Unsupported("more than one clock")
     reset_ports = {}
     for f in rtl["ffs"]:
         if f["reset"]:
@@ -371,6 +380,12 @@ def bounded(nl, rtl, k, timeout_ms):
             asserted = (t == 0)
             level = (0 if low else 1) if asserted else (1 if low else 0)
             solver.add(ins[name] == level)
+        if t == 0:
+            # the property quantifies over stimulus applied AFTER reset: during the reset cycle the
+            # other inputs sit at the simulator's initial value 0
+            for name, v in ins.items():
+                if name not in reset_ports and name not in clocks:
+                    solver.add(v == 0)
         # RTL frame
         sub = [(base["in"][n], ins[n]) for n in ins] + [(base["st"][n], rs[n]) for n in rs]
         r_out = {n: rename(e, sub) for n, e in base["out"].items()}
@@ -402,10 +417,11 @@ def bounded(nl, rtl, k, timeout_ms):
     m = solver.model()
     stim = []
     for t, fr in enumerate(frames):
-        stim.append({n: m.eval(v, model_completion=True).as_long() for n, v in fr["ins"].items() if n not in clocks})
+        stim.append({n: format(m.eval(v, model_completion=True).as_long(), "x") for n, v in fr["ins"].items()
+                     if n not in clocks})
     bad = [(t, n) for (t, n, d) in diffs if z3.is_true(m.eval(d, model_completion=True))]
     t, n = bad[0]
-    return dict(verdict="differs", kind="trace", cycle=t, port=n,
+    return dict(verdict="differs", kind="trace", cycle=t, port=n, clock=(sorted(clocks)[0] if clocks else None),
                 rtl_value=m.eval(frames[t]["r_out"][n], model_completion=True).as_long(),
                 netlist_value=m.eval(frames[t]["n_out"][n], model_completion=True).as_long(),
                 stimulus=stim, queries=1)
